@@ -57,6 +57,9 @@ def report_rejects(ctx, rejects, origin, prop_sig=lru_signature):
                       {"origin": origin, "rejected_at": at, "events": [json.loads(e) for e in evs[:at + 3]]}, name=origin)
 
 
+REPLAY = ("TraceLRU", TRACE_CFG % {"defcap": 100})
+
+
 def run(ctx):
     quick = ctx.quick
     info = ctx.run_vh(["lru-info"])
